@@ -362,3 +362,69 @@ Example calls_can_panic_on_inconsistent_reader :
   is_panic (fst (run (rd_read_sample Dbg bad_reader 1 2) (stream_at [1; 2; 3] 0))) = true
   /\ is_panic (fst (run (rd_read_sample Rel bad_reader 1 2) (stream_at [1; 2; 3] 0))) = true.
 Proof. vm_compute. split; reflexivity. Qed.
+
+(** ** The statement of property C06 in one piece *)
+
+(** every call the property lists, on the reader value [r]: the three sample calls for any build
+    mode, stream, track id and [u32] sample id, and the [Result]-valued track accessors *)
+Definition calls_safe (r : mp4reader) : Prop :=
+  (forall m data pos tid sid, sid < U32 ->
+     is_panic (fst (run (rd_read_sample m r tid sid) (stream_at data pos))) = false
+     /\ is_panic (rd_sample_offset m r tid sid) = false
+     /\ is_panic (rd_sample_count r tid) = false)
+  /\ (forall tid t, tracks_get tid (rd_tracks r) = Some t ->
+     is_panic (mt_track_type t) = false /\ is_panic (mt_media_type t) = false
+     /\ is_panic (mt_box_type t) = false /\ is_panic (mt_video_profile t) = false
+     /\ is_panic (mt_sequence_parameter_set t) = false /\ is_panic (mt_picture_parameter_set t) = false
+     /\ is_panic (mt_audio_profile t) = false /\ is_panic (mt_sample_freq_index t) = false
+     /\ is_panic (mt_channel_config t) = false).
+
+Lemma reader_ok_calls_safe r : reader_ok r -> calls_safe r.
+Proof.
+  intros H. split.
+  - intros m data pos tid sid Hs. now apply calls_never_panic.
+  - intros tid t _. apply accessors_never_panic.
+Qed.
+
+Definition C06_statement : Prop :=
+  (* opening any byte string with its true length *)
+  (forall fuel m data, bytes_ok data = true -> lenN data < 2 ^ 62 ->
+     is_panic (fst (run (open_fuel fuel m (lenN data)) (stream_at data 0))) = false)
+  (* opening any byte string as a fragment against ANY reader value *)
+  /\ (forall fuel m r data2, bytes_ok data2 = true -> lenN data2 < 2 ^ 62 ->
+     is_panic (fst (run (open_fragment_fuel fuel m r (lenN data2)) (stream_at data2 0))) = false)
+  (* every call on whatever opening returned *)
+  /\ (forall fuel m data r, bytes_ok data = true -> lenN data < 2 ^ 62 ->
+     fst (run (open_fuel fuel m (lenN data)) (stream_at data 0)) = Ok r -> calls_safe r)
+  (* every call on whatever opening a fragment against an opened file returned *)
+  /\ (forall fuel m data r fuel2 m2 data2 r2,
+     bytes_ok data = true -> lenN data < 2 ^ 62 ->
+     fst (run (open_fuel fuel m (lenN data)) (stream_at data 0)) = Ok r ->
+     bytes_ok data2 = true -> lenN data2 < 2 ^ 62 ->
+     fst (run (open_fragment_fuel fuel2 m2 r (lenN data2)) (stream_at data2 0)) = Ok r2 ->
+     calls_safe r2).
+
+Theorem C06_lemma : C06_statement.
+Proof.
+  split; [exact open_never_panics|]. split; [exact open_fragment_never_panics|]. split.
+  - intros fuel m data r Hd Hl E. apply reader_ok_calls_safe.
+    exact (open_returns_ok_reader fuel m data r Hd Hl E).
+  - intros fuel m data r fuel2 m2 data2 r2 Hd Hl E Hd2 Hl2 E2. apply reader_ok_calls_safe.
+    apply (open_fragment_returns_ok_reader fuel2 m2 r data2 r2 Hd2 Hl2); [|exact E2].
+    exact (open_returns_ok_reader fuel m data r Hd Hl E).
+Qed.
+
+(** ** "with its true length" is needed: a declared length far above the real one (here
+    [u64::MAX]) lets a 64-bit box header pass the [s > size] guard, and [start + size] in
+    [skip_box] overflows — a panic in a debug build (a release build wraps and seeks backwards).
+    The bytes: an 8-byte [free] box, then [00 00 00 01 "mfhd" FF FF FF FF FF FF FF FF]. *)
+Definition declared_length_witness : bytes :=
+  [0;0;0;8; 102;114;101;101;
+   0;0;0;1; 109;102;104;100; 255;255;255;255;255;255;255;255].
+
+Example open_declared_length_above_true_length_can_panic :
+  bytes_ok declared_length_witness = true /\ lenN declared_length_witness = 24
+  /\ is_panic (fst (run (open_fuel 10 Dbg (2 ^ 64 - 1)) (stream_at declared_length_witness 0))) = true
+  /\ is_panic (fst (run (open_fuel 10 Dbg 24) (stream_at declared_length_witness 0))) = false
+  /\ is_panic (fst (run (open_fuel 10 Rel (2 ^ 64 - 1)) (stream_at declared_length_witness 0))) = false.
+Proof. vm_compute. repeat split; reflexivity. Qed.
